@@ -166,6 +166,7 @@ class Scenario:
         del tasks.INVOKED[:]
         with vos.fresh(sched) as world:
             vproc.launcher = child_launcher
+            vos.deliver_signal = vproc.deliver_signal
             try:
                 u = sched.spawn(self.user, 'user', pid=MAIN_PID)
                 u.local['is_main'] = True
